@@ -269,3 +269,39 @@ class StmtGen:
 
 def neg_lit(k):
     return '-%d' % (-k) if k < 0 else str(k)
+
+OPENERS = ('IF', 'CASE', 'WHILE', 'REPEAT', 'FOR', 'PROCEDURE', 'FUNCTION', 'TYPE')
+CLOSERS = ('ENDIF', 'ENDCASE', 'ENDWHILE', 'UNTIL', 'NEXT', 'ENDPROCEDURE', 'ENDFUNCTION', 'ENDTYPE')
+def to_entries(lines):
+    """group the lines of a program (nested lines indented) into REPL entries: a multi-line construct
+    is one entry closed by an empty line"""
+    out = []; cur = None
+    for ln in lines:
+        if ln == '':
+            continue
+        top = not ln.startswith((' ', '\t'))
+        first = ln.split(' ')[0].split('(')[0] if top else ''
+        if cur is None:
+            if top and first in OPENERS and not (first == 'TYPE' and '=' in ln):
+                cur = [ln]
+            else:
+                out.append([ln])
+        else:
+            cur.append(ln)
+            if top and first in CLOSERS:
+                out.append(cur + ['']); cur = None
+    if cur is not None:
+        out.append(cur + [''])
+    return out
+
+def strip_prompts(stdout):
+    """REPL stdout without header and without '> ' / '. ' prompts"""
+    txt = stdout.decode('latin-1')
+    parts = txt.split('\n', REPL_HEADER_LINES)
+    body = parts[REPL_HEADER_LINES] if len(parts) > REPL_HEADER_LINES else ''
+    out = []
+    for seg in body.split('> '):
+        while seg.startswith('. '):
+            seg = seg[2:]
+        out.append(seg)
+    return ''.join(out)
